@@ -2187,38 +2187,55 @@ def eqn2_helpers(e, bitslice=False, widening=False):
             if e.op.symbol == OP_NEQ and e.l._is_ext:
                 return bit1
         # if e:= (l [|*/] 1) then e:= l
-        elif e.r.value == 1 and e.op.symbol in (OP_MUL, OP_MUL2, OP_DIV):
+        elif e.r.value == 1 and e.op.symbol in (OP_MUL, OP_DIV):
             return e.l
+        # if e:= (l ** 1) then e:= l extended to the doubled size
+        elif e.r.value == 1 and e.op.symbol == OP_MUL2:
+            return e.l.extend(e.l.sf, e.size)
         # if e:= (l & mask) then e:= l[i1:i2]
         elif e.op.symbol == OP_AND and ismask(e.r.value):
             i1, i2 = get_lsb_msb(e.r.value)
             c = comp(e.size)
+            c.sf = e.sf
             c[0 : e.size] = cst(0, e.size)
             c[i1 : i2 + 1] = e.l[i1 : i2 + 1]
             return c.simplify()
         elif bitslice and e.op.symbol in (OP_AND, OP_OR, OP_XOR):
-            return composer(
+            c = composer(
                 [e.op(e.l[i : i + 1], e.r[i : i + 1]) for i in range(e.size)]
             )
-        elif bitslice and e.op.symbol in (OP_LSL):
-            return composer(
-                [bit0] * e.r.value
-                + [e.l[i : i + 1] for i in range(0, e.size - e.r.value)]
+            if c._is_cmp:
+                c.sf = e.sf
+            return c
+        # if e:= (l [>> <<] n) with n >= size then e:= 0 (n is an unsigned amount)
+        elif e.op.symbol in (OP_LSL, OP_LSR) and e.r.v >= e.l.size:
+            return cst(0, e.size)
+        elif bitslice and e.op.symbol == OP_LSL:
+            c = composer(
+                [bit0] * e.r.v
+                + [e.l[i : i + 1] for i in range(0, e.size - e.r.v)]
             )
-        elif bitslice and e.op.symbol in (OP_LSR):
-            return composer(
-                [e.l[i : i + 1] for i in range(e.r.value, e.size)] + [bit0] * e.r.value
+            if c._is_cmp:
+                c.sf = e.sf
+            return c
+        elif bitslice and e.op.symbol == OP_LSR:
+            c = composer(
+                [e.l[i : i + 1] for i in range(e.r.v, e.size)] + [bit0] * e.r.v
             )
+            if c._is_cmp:
+                c.sf = e.sf
+            return c
         # if e:= (l [>> <<] r) then e:= l[i1:i2]
         elif e.op.symbol in (OP_LSL, OP_LSR):
             c = comp(e.l.size)
+            c.sf = e.sf
             c[0 : e.l.size] = cst(0, e.l.size)
             if e.op.symbol == OP_LSL:
-                l = e.l[0 : e.l.size - e.r.value]
-                c[e.r.value : e.l.size] = l
+                l = e.l[0 : e.l.size - e.r.v]
+                c[e.r.v : e.l.size] = l
             elif e.op.symbol == OP_LSR:
-                l = e.l[e.r.value : e.l.size]
-                c[0 : e.l.size - e.r.value] = l
+                l = e.l[e.r.v : e.l.size]
+                c[0 : e.l.size - e.r.v] = l
             return c.simplify()
         # if e:= ((a op b) e.op cst)
         if e.l._is_eqn:
@@ -2237,16 +2254,18 @@ def eqn2_helpers(e, bitslice=False, widening=False):
             elif e.r.size == 1:
                 # if e:= ((a op b) == bit1) change in e := (a op b)
                 # if e:= ((a op b) == bit0) change in e := ~(a op b)
+                # (e.r.v, not e.r.value: a signed 1-bit constant 1 has value -1)
                 if e.op.symbol == OP_EQ:
-                    return e.l if e.r.value == 1 else ~(e.l)
+                    return e.l if e.r.v == 1 else ~(e.l)
                 if e.op.symbol == OP_NEQ:
-                    return ~(e.l) if e.r.value == 1 else ~(e.l)
+                    return ~(e.l) if e.r.v == 1 else e.l
         elif e.l._is_ptr:
             if e.op.symbol in (OP_MIN, OP_ADD):
                 return ptr(e.l, disp=e.op(0, e.r.value))
         elif e.l._is_cmp:
             if e.op.symbol in (OP_AND, OP_OR, OP_XOR):
                 cc = comp(e.l.size)
+                cc.sf = e.sf
                 for (ij, p) in e.l.parts.items():
                     i, j = ij
                     cc[i:j] = e.op(p, e.r[i:j])
